@@ -12,11 +12,16 @@ for d in sorted(glob.glob(os.path.join(ROOT, "seeded", "*C[0-9][0-9]_*"))):
     verdicts = []
     for p, r in runs.items():
         if isinstance(r, dict):
-            first = next((l for l in r["lines"] if l.startswith(("VIOLATION", "UNDECIDED"))), "")
+            first = next((l for l in r["lines"] if l.startswith("VIOLATION")), "") or next((l for l in r["lines"] if l.startswith("UNDECIDED")), "")
             obl = ""
             if "obligation=" in first:
                 obl = first.split("obligation=")[1].split(" clause")[0]
-            verdicts.append("%s: exit %d %s%s" % (p, r["exit"], obl, " (hints lost)" if "proof-hints-lost" in first else ""))
+            mode = ""
+            if r["exit"] == 1:
+                mode = " (failing input shown by another oracle program)" if "failing-input-attached" in first else " (verifier, annotations intact)"
+            elif r["exit"] == 2:
+                mode = " (" + (first.split(": ", 2)[-1][:90] if first else "undecided") + ")"
+            verdicts.append("%s: exit %d %s%s" % (p, r["exit"], obl, mode))
         else:
             verdicts.append("%s: %s" % (p, r))
     what = (m.get("what_breaks") or "").replace("\n", " ")
@@ -25,13 +30,14 @@ with open(os.path.join(ROOT, "seeded", "MATRIX.md"), "w") as f:
     f.write("# Seeded property-breaking changes and what the checks say\n\n")
     f.write("Each directory holds `patch.diff` (against /repo), `demo/` (passes on /repo, fails with the patch) and `meta.json`\n")
     f.write("(what breaks, what it needs to manifest, confirmation run, detection runs). Produced by independent sub-agents that saw only the\n")
-    f.write("property text; confirmed with `vx/seedtest.py confirm`, checked with `vx/seedtest.py check`.\n\n")
+    f.write("property text; confirmed with `vx/seedtest.py confirm`, checked with `vx/seedtest.py check` (which excludes the change's own demonstration program from the oracle programs, so no change is confirmed by its own demo).\n\n")
     f.write("| id | confirmed | verdict of the property's quick check | /verif commit | what the change breaks |\n|---|---|---|---|---|\n")
     for r in rows:
         f.write("| %s | %s | %s | %s | %s |\n" % r)
     n = len(rows)
     caught = sum(1 for r in rows if "exit 1" in r[2])
+    byinput = sum(1 for r in rows if "exit 1" in r[2] and "failing input shown" in r[2])
     und = sum(1 for r in rows if "exit 2" in r[2] and "exit 1" not in r[2])
     miss = n - caught - und
-    f.write("\n%d seeded changes: %d reported as VIOLATION (exit 1), %d undecided (exit 2: the changed function left the verifier's dialect), %d not noticed (exit 0).\n" % (n, caught, und, miss))
+    f.write("\n%d seeded changes: %d reported as VIOLATION (exit 1) -- %d by the verifier alone with all proof annotations in place, %d after a failing input was shown by an oracle program other than the change's own demonstration; %d undecided (exit 2: the changed text left the verifier's reach and no other program fails); %d not noticed (exit 0).\n" % (n, caught, caught - byinput, byinput, und, miss))
 print(open(os.path.join(ROOT, "seeded", "MATRIX.md")).read()[-400:])
